@@ -207,6 +207,40 @@ func (o *OracleC05) AfterCall(n *Node, st *Step) {
 			return
 		}
 	}
+	// Timing: the only thing earlier heights may contribute is the documented timer adjustment
+	// by the time elapsed since the proposal of the IMMEDIATELY preceding height was handled.
+	// If this incarnation never held a proposal of height h-1, the first timer armed for
+	// (h, view 0) must be the full one of the dBFT timeout ladder: T for the primary,
+	// 2T for a backup.  (Block index 1 is exempt, see O1.)
+	if d.BlockIndex > 1 && d.MyIndex >= 0 && !n.flagWO {
+		seen := false
+		for k := range n.facts.proposals {
+			if k.h == d.BlockIndex-1 {
+				seen = true
+			}
+		}
+		if !seen {
+			// the initialisation's own timer is the last one armed in the call (cached payloads
+			// replayed before it may have armed others, e.g. the commit timer)
+			var last *Out
+			for i := range st.Outs {
+				if st.Outs[i].Kind == OTimerReset {
+					last = &st.Outs[i]
+				}
+			}
+			if last != nil && last.H == tip+1 && last.V == 0 && !d.CommitSent() && !d.PreCommitSent() && !d.RequestSentOrReceived() {
+				full := s.sc.TPBAt(tip + 1)
+				if s.sc.IndexAt(tip+1, n.ident) != primaryOf(tip+1, 0, nv) {
+					full <<= 1
+				}
+				if last.D < full {
+					o.viol(n, "timer_shortened_by_older_height", "height %d: the node never held a proposal of height %d, yet the timer armed by its initialisation is %v instead of the full %v", tip+1, tip, last.D, full)
+					return
+				}
+				s.note("full_timer_after_unseen_height")
+			}
+		}
+	}
 	if st.Op == OpReset && (tip+1 > st.PreBI+1) {
 		s.st.Exercised = true
 		s.note("reset_skipped_heights")
